@@ -61,7 +61,7 @@ Definition picks_from (thr : Q) (sn after : cstate Q) : list Qv :=
 Definition update_model (cfg : ccfg Q) (training freeze has_mask : bool) (s1 : cstate Q)
   (xs : list Qv) (valid : list bool) (idx : list nat) (after : cstate Q) : cstate Q * list Qv :=
   let sn := cb_update Q_ops Qsqrt (set_thr cfg 0) training freeze has_mask s1 xs valid idx [] in
-  let picks := picks_from (c_thr cfg) sn after in
+  let picks := if g_expire cfg training freeze then picks_from (c_thr cfg) sn after else [] in
   (cb_update Q_ops Qsqrt cfg training freeze has_mask s1 xs valid idx picks, picks).
 (* pool membership: exact for Euclid, up to normalisation tolerance for cosine (pool given already normalised) *)
 Definition in_pool (tol : Q) (pool : list Qv) (p : Qv) : bool := existsb (fun q => vclose tol q p) pool.
@@ -98,3 +98,14 @@ Definition shared_check (tolE tolS : Q) (cfg : ccfg Q) (s0 : cstate Q) (layers :
 Definition lq_okb (tol : Q) (values : Qv) (z : Q) (k : nat) : bool :=
   Nat.ltb k (length values) &&
   forallb (fun v => Qle_bool (Qabsq (Qred (z - nth k values 0))) (Qred (Qabsq (Qred (z - v)) + tol))) values.
+
+(* shared-codebook ResidualVQ with expiry: accumulate over the layers, one normalisation, then expiry whose
+   replacements come from the concatenation of all layers' residuals *)
+Definition shared_expire_check (tolE tolS : Q) (cfg : ccfg Q) (s0 : cstate Q) (layers : list (list Qv * list nat))
+  (pool : list Qv) (after : cstate Q) : nat :=
+  let sn := shared_model cfg s0 layers in
+  let picks := picks_from (c_thr cfg) sn after in
+  match st_diff tolE tolS (expire Q_ops false (c_thr cfg) (c_reset cfg) picks sn) after with
+  | O => if forallb (in_pool tolE pool) picks then 0 else 5
+  | n => n
+  end.
